@@ -74,8 +74,28 @@ TBegin == /\ e.op = "begin"
           /\ BeginWrite(e.repl) /\ Outcome /\ StateOK /\ Adv
 TStage == /\ e.op = "stage"
           /\ Stage(Cont(e.content)) /\ Outcome /\ StateOK /\ Adv
+(* a commit with a fault armed in the pruning predicate; e.fired says whether it raised *)
+TEndFault ==
+    /\ e.op = "end" /\ e.how = "commit_fault"
+    /\ IF ~e.fired
+       THEN IF writer.state = "dirty"
+            THEN Check(t, l, "IdsIncrease", Last(e.vids) > Last(allIds)) /\ CommitChanged(Last(e.vids))
+            ELSE CommitUnchanged
+       ELSE LET pub == Last(e.vids) # Last(allIds)
+                vs == IF pub THEN Append(versions, [id |-> Last(e.vids), content |-> writer.work]) ELSE versions
+                n == Len(vs)
+            IN /\ Check(t, l, "IdsIncrease", pub => Last(e.vids) > Last(allIds))
+               /\ Check(t, l, "RetainedIds", Len(e.vids) >= 1 /\ Len(e.vids) <= n)
+               /\ Check(t, l, "PinnedRetained",
+                        \A j \in 1..(n - Len(e.vids)) : vs[j].id < LeastKept(readers, vs))
+               /\ CommitFaulted(pub, Last(e.vids), n - Len(e.vids) + 1)
+    /\ Outcome /\ StateOK /\ Adv
+TReuse == /\ e.op = "reuse"
+          /\ ReuseEndedWriter
+          /\ Check(t, l, "EndedWriterRefused", \A i \in 1..Len(e.raised) : e.raised[i])
+          /\ StateOK /\ Adv
 TEnd ==
-    /\ e.op = "end"
+    /\ e.op = "end" /\ e.how # "commit_fault"
     /\ IF e.how \in {"commit", "exit"}
        THEN IF writer.state = "dirty"
             THEN /\ Check(t, l, "IdsIncrease", Last(e.vids) > Last(allIds))
@@ -105,7 +125,7 @@ TScribble == /\ e.op = "scribble"
 TraceNext ==
     /\ l <= Len(Ev(t))
     /\ \/ TInitEv \/ TOpenLatest \/ TOpenId \/ TOpenSerial \/ TOpenBoth \/ TClose \/ TBegin \/ TStage
-       \/ TEnd \/ TSetMax \/ TSetMaxNone \/ TSetPolicy \/ TMutate \/ TZMutate \/ TScribble
+       \/ TEnd \/ TSetMax \/ TSetMaxNone \/ TSetPolicy \/ TMutate \/ TZMutate \/ TScribble \/ TEndFault \/ TReuse
 
 Accepted == Accepting(t, l)
 =============================================================================
